@@ -1304,7 +1304,13 @@ class C14(CheckBase):
                 "yield at every function entry of the compile-side "
                 "modules; 15% of schedule runs are reload races (an "
                 "auto-reloading file template rendered once, its file or "
-                "library replaced, then used by 2-3 threads at once). Some "
+                "library replaced, then used by 2-3 threads at once); in a "
+                "quarter of the schedules one thread is sent "
+                "KeyboardInterrupt / SystemExit at its n-th line / distinct "
+                "line / shared-state access line inside one operation (that "
+                "operation may fail with it, nothing else may change, nobody "
+                "may deadlock); instances returned by concurrent loads of "
+                "one name must be one object. Some "
                 "pool templates fail for some arguments: the error text "
                 "(class, args, expression, file, position, excerpt) must "
                 "equal the lone run's. A run is non-trivial if at least one context "
@@ -1331,8 +1337,11 @@ class C14(CheckBase):
                          "utils.py, i18n.py and of every generated render "
                          "function, at lock operations, file-system calls "
                          "and probe calls inside templates",
-                         "chameleon.loader's process-wide RLock (a "
-                         "scheduler-aware re-entrant lock)"]},
+                         "every lock that chameleon's own code creates, "
+                         "at import or later (scheduler-aware re-entrant "
+                         "locks; the import system's locks are real)",
+                         "asynchronous exceptions (raised from the LINE "
+                         "callback)"]},
             "assumptions": [
                 "pre-emption granularity is a source line (not a bytecode)",
                 "files change only in the reload-race family: one is "
